@@ -217,6 +217,8 @@ pub struct MsgOp {
     pub xid: u32,
     pub flags: u16,
     pub giaddr: Ipv4Addr,
+    /// option 51 in the request: the lease time the client would like
+    pub lease_req: Option<u32>,
 }
 
 impl MsgOp {
@@ -233,6 +235,7 @@ impl MsgOp {
             xid: 0x1234_5678,
             flags: 0,
             giaddr: Ipv4Addr::UNSPECIFIED,
+            lease_req: None,
         }
     }
     /// The address the message names (ciaddr wins for REQUEST, as in RFC 2131 renewals).
@@ -261,6 +264,7 @@ pub fn op_json(op: &Op, cfgs: &[Cfg]) -> Value {
             "xid": m.xid,
             "flags": m.flags,
             "giaddr": m.giaddr.to_string(),
+            "lease_req": m.lease_req,
         }),
     }
 }
@@ -289,6 +293,7 @@ pub fn op_from_json(v: &Value, cfgs: &[Cfg]) -> Result<Op, String> {
                 xid: v["xid"].as_u64().unwrap_or(0x1234_5678) as u32,
                 flags: v["flags"].as_u64().unwrap_or(0) as u16,
                 giaddr: v["giaddr"].as_str().unwrap_or("0.0.0.0").parse().map_err(|e| format!("giaddr: {e}"))?,
+                lease_req: v["lease_req"].as_u64().map(|x| x as u32),
             }))
         }
         _ => Err("unknown op kind".into()),
@@ -333,6 +338,28 @@ pub fn build_alphabet(cfgs: &[Cfg], spec: &AlphabetSpec) -> Alphabet {
                     m.ciaddr = Some(ip(a));
                     ops.push(Op::Msg(m));
                 }
+            }
+        }
+    }
+    // Extras, on the first configuration of the spec only (they multiply nothing else):
+    //  - the client asks for a lease time itself (option 51): below the minimum, inside, above the maximum
+    //  - a REQUEST that selects ANOTHER server (foreign server identifier) and names an address:
+    //    it must have no effect at all, also not on the lease somebody else holds on that address
+    if let Some((ci, cfg)) = cfgs.iter().enumerate().find(|(_, c)| spec.cfgs.contains(&c.name)) {
+        let iface = ip(cfg.ifaces[0]);
+        for client in 0..spec.clients {
+            for l in [1u32, 120, 299, 200_000] {
+                for mt in [1u8, 3] {
+                    let mut m = MsgOp::basic(ci, iface, client, mt);
+                    m.lease_req = Some(l);
+                    ops.push(Op::Msg(m));
+                }
+            }
+            for a in spec.addrs.iter().take(2) {
+                let mut m = MsgOp::basic(ci, iface, client, 3);
+                m.req = Some(ip(a));
+                m.serverid = Some(vec![10, 0, 0, 1]);
+                ops.push(Op::Msg(m));
             }
         }
     }
@@ -386,6 +413,9 @@ pub fn build_request(m: &MsgOp) -> dhcp::DHCPRequest {
     }
     if let Some(s) = &m.serverid {
         other.insert(dhcppkt::OPTION_SERVERID, s.clone());
+    }
+    if let Some(l) = m.lease_req {
+        other.insert(dhcppkt::OPTION_LEASETIME, l.to_be_bytes().to_vec());
     }
     other.insert(dhcppkt::OPTION_PARAMLIST, vec![1, 3, 6, 51, 54]);
     dhcp::DHCPRequest {
@@ -916,6 +946,16 @@ pub fn deep_roots() -> Vec<State> {
         // a holder whose identity is the empty byte string (zero-length client identifier), and one
         // with a 255-octet identity
         vec![r("192.0.2.9", &vec![], -100, 400), r("192.0.2.11", &vec![0x7a; 255], -100, 400)],
+        // a client that holds many leases at once (it roamed through several pools): its lease in the
+        // pools of the alphabet expires FIRST, five others later
+        vec![
+            r("192.0.2.9", &a, -100, 400),
+            r("192.0.2.40", &a, -100, 1000),
+            r("192.0.2.41", &a, -100, 1100),
+            r("192.0.2.42", &a, -100, 1200),
+            r("192.0.2.43", &a, -100, 1300),
+            r("192.0.2.44", &a, -100, 1400),
+        ],
         // two clients outside the alphabet hold addresses that lie outside every pool of the
         // alphabet but, as text, inside the range of K8's pool
         vec![r("192.0.2.20", &vec![0xee; 6], -100, 400), r("192.0.2.21", &vec![0xef; 6], -100, 400)],
@@ -996,7 +1036,8 @@ pub fn bfs_from(cfgs: &[Cfg], alpha: &Alphabet, roots: &[State], max_depth: u32,
                             Op::Tick(_) => ("tick".to_string(), vec![], None),
                             Op::Msg(m) => {
                                 let told = told_after(pre, m, &res);
-                                let told = if matches!(res, StepResult::Reply(_)) && holdings(&told) != holdings(&post) { Some(told) } else { None };
+                                // (also after a message that got no reply: it must not have changed who holds what)
+                                let told = if holdings(&told) != holdings(&post) { Some(told) } else { None };
                                 (outcome_class(m, &res, pre, &post), judge(pre, m, &res, &post, cfgs), told)
                             }
                         };
